@@ -124,4 +124,26 @@ PROPS = {
                      '2-byte strings (the trace shape does not depend on them).'),
         technique='contract-based deductive verification: Kani harnesses on the real Serialize impls with a recording Serializer',
     ),
+    'C07': dict(
+        title='Filter evaluation follows the Haystack filter semantics',
+        verus=[],
+        kani=[dict(harness='k_cmp_eq', klass='complete', schema='raw', family='filter-cmp:eq', target='filter::nodes::cmp_values(Eq)', timeout=400),
+              dict(harness='k_cmp_ne', klass='complete', schema='raw', family='filter-cmp:ne', target='filter::nodes::cmp_values(NotEq)', timeout=400),
+              dict(harness='k_cmp_lt', klass='complete', schema='raw', family='filter-cmp:lt', target='filter::nodes::cmp_values(LessThan)', timeout=400),
+              dict(harness='k_cmp_le', klass='complete', schema='raw', family='filter-cmp:le', target='filter::nodes::cmp_values(LessThanEq)', timeout=400),
+              dict(harness='k_cmp_gt', klass='complete', schema='raw', family='filter-cmp:gt', target='filter::nodes::cmp_values(GreatThan)', timeout=400),
+              dict(harness='k_cmp_ge', klass='complete', schema='raw', family='filter-cmp:ge', target='filter::nodes::cmp_values(GreatThanEq)', timeout=400),
+              dict(harness='k_cmp_lt_bool_literal', klass='complete', schema=None, family=None, target='filter::nodes::cmp_values(LessThan) vs Bool literal', timeout=400)],
+        witness=None,
+        design_ref='DESIGN.md section 4, C07',
+        level_text=('Proof (Kani/CBMC, complete over the 7 heap-free kinds x all non-NaN f64, one harness per operator) of the comparison '
+                    'kernel cmp_values with the real PartialEq/PartialOrd of Value: a comparison holds only if the tag has a value; '
+                    '< <= > >= hold only for a value of the literal\'s kind ordered as stated; == iff equal; != iff a value that is not equal.'),
+        not_decided=('and/or/parens evaluation and path resolution (iterator adapters over the node tree, resolver trait objects); '
+                     '^symbol and relationship terms (namespace, C13); string/ref/date literals and list tags in the kernel (heap values '
+                     'make CBMC runs unbounded in time: a two-element list harness did not finish in 20 min); grid filtering order; '
+                     'precedence is a parser matter (C08). NaN literals are excluded (not expressible in filter text; derive(PartialOrd) '
+                     'orders NaN differently on the repository toolchain and on Kani\'s nightly).'),
+        technique='contract-based deductive verification: Kani complete symbolic harnesses on the real comparison kernel',
+    ),
 }
